@@ -1312,6 +1312,25 @@ def run_struct(inp):
         for nidx, idx in zip(np.ndindex(*ns), flat_idx):
             if not same_unit(Rs, nidx, idx, "reshape"):
                 break
+    # memory layouts (wave 6): an object built from a Fortran-ordered / strided / transposed view of the same coordinates
+    # has the same units in the same (logical, row-major) order under flatten and reshape
+    if not bad:
+        tr = np.moveaxis(np.ascontiguousarray(np.moveaxis(pd, 0, -1)), -1, 0)      # coordinate-first storage, viewed units-first
+        for lay, arr in (("fortran", np.asfortranarray(pd)), ("strided", np.repeat(pd, 2, axis=0)[::2]), ("transposed_view", tr)):
+            with np.errstate(all="ignore"):
+                Xl = type(X)(arr)
+            for opn, D, dshape in (("flatten", Xl.flatten_to_unit(), (len(flat_idx),)), ("reshape", Xl.reshape(ns), ns)):
+                if tuple(D.shape) != tuple(dshape):
+                    bad.append({"what": opn + "_shape_layout", "layout": lay, "got": list(D.shape)})
+                    continue
+                for nidx, idx in zip(np.ndindex(*dshape), flat_idx):
+                    if not data_proj_eq(kind, np.asarray(D.proj_data)[nidx], pd[idx], 1e-12):
+                        bad.append({"what": opn + "_proj_layout", "layout": lay, "idx": list(idx),
+                                    "expected": "units in row-major order whatever the memory layout of the array the object was built from"})
+                        break
+                    if ad is not None and D.aux_data is not None and not aux_proj_eq(kind, np.asarray(D.aux_data)[nidx], ad[idx], 1e-7):
+                        bad.append({"what": opn + "_aux_layout", "layout": lay, "idx": list(idx)})
+                        break
     # len / index / iterate
     if len(X) != shape[0]:
         bad.append({"what": "len", "got": len(X)})
